@@ -259,6 +259,8 @@ func runPushdown(c *core.Ctx, rule, rel, fname, srcType string, classes []pushCa
 }
 
 func runC04(c *core.Ctx) {
+	c.Rule("UNIQCMP", "unique column names are compared exactly")
+	checkUniqueNameComparison(c, "UNIQCMP")
 	c.Rule("CSVUNIQ", "csv column pruning selects file columns by name: repeated header names are rejected")
 	checkCSVUniqueNames(c, "CSVUNIQ")
 	c.Rule("OPT1", "pushdown rules place every predicate exactly where its class allows and drop nothing")
